@@ -5,6 +5,7 @@ import (
 	"errors"
 	"fmt"
 	"strings"
+	"time"
 
 	"github.com/talostrading/sonic/codec/websocket"
 	"github.com/talostrading/sonic/sonicerrors"
@@ -114,6 +115,8 @@ func runC16(c *vf.Case) {
 	var parkedFrame websocket.Frame
 	var parkedErr error
 	overlaps, syncBlocks := 0, 0
+	secondIssued, secondCalls := false, 0
+	var secondErr error
 	steps := r.Range(1, 40)
 	for step := 0; step < steps && !c.Failed() && !closed; step++ {
 		async := r.Bool()
@@ -155,10 +158,38 @@ func runC16(c *vf.Case) {
 						c.Logf("  (while the write is held by the transport: AsyncFlush)")
 						s.AsyncFlush(func(error) {})
 						overlaps++
+					} else if !closed && s.State() == websocket.StateActive {
+						// a second write-type call while the first is held: its frame goes after the held one, once
+						overlaps++
+						if r.Bool() {
+							n := c16Size(r, max)
+							payload := r.Bytes(n)
+							w2 := fmt.Sprintf("(while the write is held by the transport) AsyncWrite %d bytes", n)
+							c.Logf("  %s", w2)
+							expect = append(expect, c16Expect{wsref.OpBinary, true, payload, w2})
+							s.AsyncWrite(payload, websocket.TypeBinary, func(e error) { secondCalls++; secondErr = e })
+						} else {
+							code := []uint16{1000, 1001, 3000}[r.Intn(3)]
+							reason := string(asciiBytes(r, r.Intn(20)))
+							w2 := fmt.Sprintf("(while the write is held by the transport) AsyncClose %d %q", code, reason)
+							c.Logf("  %s", w2)
+							expect = append(expect, c16Expect{wsref.OpClose, true, wsref.ClosePayload(code, reason), w2})
+							s.AsyncClose(websocket.CloseCode(code), reason, func(e error) { secondCalls++; secondErr = e })
+							closed = true
+						}
+						secondIssued = true
 					}
 					t.ReleaseWrites()
 				}
 				t.Pump()
+				if secondIssued {
+					secondIssued = false
+					if secondCalls != 1 || secondErr != nil {
+						c.Failf("overlapping-write-callback", "%s, then a second write-type call while it was held: second callback invoked %d times, err=%v", what, secondCalls, secondErr)
+						return false
+					}
+					secondCalls = 0
+				}
 				if calls != 1 {
 					c.Failf("write-callback-count", "%s: callback invoked %d times", what, calls)
 					return false
@@ -201,6 +232,9 @@ func runC16(c *vf.Case) {
 			before := len(t.Written)
 			what := fmt.Sprintf("oversize message %d bytes (max %d) async=%v", n, max, async)
 			c.Logf("%s", what)
+			if hold { // nothing is written, so there is no write to hold and to overlap with
+				hold, t.HoldWrites = false, false
+			}
 			if async {
 				s.AsyncWrite(make([]byte, n), websocket.TypeBinary, cb)
 			} else {
@@ -342,8 +376,9 @@ func init() {
 			"one application write at a time (overlapping writes belong to C17); a read or flush may be started while a write is held by the transport",
 			"masking keys are not required to be distinct, only present and correctly applied",
 		},
-		NumCases: func(tier, build string) int { return vf.Tiered(tier, 2000, 1000000) },
-		Floor:    func(tier string) int { return vf.Tiered(tier, 300, 5000) },
-		Run:      runC16,
+		NumCases:    func(tier, build string) int { return vf.Tiered(tier, 2000, 1000000) },
+		Floor:       func(tier string) int { return vf.Tiered(tier, 300, 5000) },
+		CaseTimeout: 30 * time.Second,
+		Run:         runC16,
 	})
 }
